@@ -4,6 +4,8 @@
 FALSE ALARM. Rewrites benign/<id>/meta.json and benign/SUMMARY.json, and the table of DESIGN.md section 7.1."""
 import json, glob, os, re, shutil, subprocess, sys
 V = os.path.dirname(os.path.dirname(os.path.abspath(__file__)))
+sys.path.insert(0, V + "/tools")
+import eval_par
 if len(sys.argv) > 2 and sys.argv[1] == "--import":
     cnt = {}
     for d in sorted(glob.glob(sys.argv[2] + "/*.out/r[0-9]*")):
@@ -25,13 +27,12 @@ if len(sys.argv) > 2 and sys.argv[1] == "--import":
                        note="diff_test.go.txt is the differential test (renamed so it is not compiled as part of /verif)"),
                   open(dst + "/meta.json", "w"), indent=1)
 rows, silent = [], 0
-for d in sorted(glob.glob(V + "/benign/C*-r*/")):
+DIRS = sorted(glob.glob(V + "/benign/C*-r*/"))
+EV = {r["id"]: r for r in eval_par.evaluate(DIRS, int(os.environ.get("JOBS", "8")))}
+for d in DIRS:
     bid = os.path.basename(d.rstrip("/"))
     m = json.load(open(d + "meta.json"))
-    ev = subprocess.run([V + "/tools/eval_seed.sh", d.rstrip("/")], capture_output=True, text=True).stdout
-    fired = [l for l in ev.splitlines() if l.startswith(("VIOLATED", "UNDECIDED"))]
-    summ = [l for l in ev.splitlines() if l.startswith("exit-summary:")]
-    props = summ[0].replace("exit-summary:", "").split() if summ else ["?"]
+    fired, props = EV[bid]["fired"], (["?"] if EV[bid].get("error") else EV[bid]["props"])
     m["false_alarm_checks"] = props
     m["false_alarm_rules"] = sorted(set(l.split()[1].split("|")[0] for l in fired))
     m["first_reports"] = [l[:200] for l in fired[:3]]
